@@ -413,9 +413,10 @@ func main() {
 	e3()
 	e4()
 	e5()
+	e6()
 	e2()
 	res.Info["grid"] = map[string]any{"segment_alphabet": alphabet, "E1_max_segments": 4, "E2_max_segments": map[string]int{"quick": 3, "thorough": 4}[report.Tier], "bases": []string{"", "/", "/base", "/base/v1/"},
-		"queries": []string{"", "q=../..", "a=%2e%2e"}, "E4": "4 scheme spellings x 8 host forms x 9 port spellings (absent, :80, :443, ordinary, leading zero) x 4 base paths x preserve_path, through LoadFromConfig to the proxied target, the health-check URL and the model-listing URL", "E5": "every prefix spelling declared by the shipped profiles x endpoint of the owning type x 7 plain remainders (incl. ones that repeat the prefix) x 2 engines x {no base, base with preserve_path}", "E2": "raw request-target bytes behind /olla/proxy and /olla/openai, origin-form and absolute-form naming a decoy listener, both engines"}
+		"queries": []string{"", "q=../..", "a=%2e%2e"}, "E4": "4 scheme spellings x 8 host forms x 9 port spellings (absent, :80, :443, ordinary, leading zero) x 4 base paths x preserve_path, through LoadFromConfig to the proxied target, the health-check URL and the model-listing URL", "E6": "failover: preferred endpoint refuses / resets, second endpoint on another port with another base path, preserve_path on and off, both engines: second attempt at the second endpoint's own URL, first endpoint not asked again", "E5": "every prefix spelling declared by the shipped profiles x endpoint of the owning type x 7 plain remainders (incl. ones that repeat the prefix) x 2 engines x {no base, base with preserve_path}", "E2": "raw request-target bytes behind /olla/proxy and /olla/openai, origin-form and absolute-form naming a decoy listener, both engines"}
 	res.Info["rule"] = "one evaluation = one BuildTargetURL call / one raw request / one LoadFromConfig; non-trivial/distinct = distinct normalised upstream paths per (base, preserve_path)"
 	res.Assume("containment is judged after one level of percent-decoding and RFC 3986 dot-segment removal", "the Host header forwarded to the backend is the client's by design and is not judged")
 	res.Finish()
